@@ -128,6 +128,10 @@ struct lifetime_monitor : public expectation
     {
       sequences->retire_predecessors();
     }
+    if (sequences->is_saturated())
+    {
+      sequences->retire();
+    }
   }
 
   template <typename ... T>
